@@ -56,11 +56,13 @@ def run_leg(prop, leg, tier, binp, deadline_s, known, seed):
 
     def one(i):
         left = deadline_s - (time.time() - t0)
-        if state["stop"] or left < 1.0:
+        if state["stop"]:
             return i, None
         p = dict(leg.get("params", {})); p.update(sw[i])
-        # fair share of what is left for the items not yet started, times a generous factor; small explorations finish far earlier
-        share = max(1.5, min(left, 8.0 * left * par / max(1, len(sw) - i)))
+        # fair share of what is left for the items not yet started, times a generous factor; small explorations finish far earlier.  No
+        # parameter set is skipped when the time is used up: it then runs with a token deadline and the engine's minimal exploration
+        # (deviation bound 1 or 300 executions) still happens
+        share = max(0.5, min(max(left, 0.5), 8.0 * max(left, 0.0) * par / max(1, len(sw) - i)))
         return i, run_one(prop, leg, "%s-%03d" % (leg["name"], i), p, tier, binp, share, known, seed, jobs)
 
     with cf.ThreadPoolExecutor(max_workers=par) as ex:
